@@ -13,27 +13,111 @@ package include
 //@ trusted (*Loader).expandGlob
 //@   ensures len(result0) >= 0
 
+// visited[p] is true while p is being included (the ancestor stack of the recursion); a file whose includes have been
+// resolved stays in the map with the value false, so that it is loaded once. has(visited, p) = p was entered in this load.
+
+// PfOK: a parsed file carries as many parse errors as Parse returned with its journal (the pairing of journal and
+// errors is kept by storing them as one struct value; the ghost count catches a dropped or foreign error list).
+//@ pred PfOK(f parsedFile) := f.journal != nil && len(f.parseErrs) == nErrs(f.journal)
+// CacheOK (C11): every remembered file is the parse of the current text of its path in the (ghost) file system.
+//@ pred CacheOK(l *Loader) := l != nil && l.cache != nil && (forall q string :: {has(l.cache, q)} has(l.cache, q) ==> PfOK(l.cache[q]) && parsedFrom(l.cache[q].journal) == fsread(q))
+// CacheOKExcept: the same for every path but p (the state after the file at p changed on disk).
+//@ pred CacheOKExcept(l *Loader, p string) := l != nil && l.cache != nil && (forall q string :: {has(l.cache, q)} has(l.cache, q) && q != p ==> PfOK(l.cache[q]) && parsedFrom(l.cache[q].journal) == fsread(q))
+
 //@ func (*Loader).loadWithContent
-//@   props C10 C11
-//@   requires l != nil && l.cache != nil && visited != nil && !visited[path] && visited != l.cache
+//@   props C09 C10 C11
+//@   requires CacheOK(l) && visited != nil && !has(visited, path)
+//@   ensures CacheOK(l)
 //@   ensures [C10:stack] forall p string :: visited[p] == old(visited[p])
-//@   ensures [grow_only] forall p string :: old(visited[p]) ==> visited[p]
+//@   ensures [grow_only] forall p string :: old(has(visited, p)) ==> has(visited, p)
 //@   ensures [C09:primary_path] result0 != nil ==> result0.PrimaryPath == path
 //@   modifies visited[*], l.cache[*]
-//@   loop 1 invariant 0 - 1 <= rangeindex && rangeindex <= len(parseErrs) - 1 && journal != nil && (forall p string :: visited[p] == old(visited[p]))
-//@   loop 1 decreases len(parseErrs) - rangeindex
-//@   loop 2 invariant 0 - 1 <= rangeindex && rangeindex <= len(journal.Includes) - 1 && journal != nil && visited[path] && (forall p string :: old(visited[p]) ==> visited[p]) && result != nil && result.Files != nil && fresh(result) && fresh(result.Files)
-//@   loop 2 decreases len(journal.Includes) - rangeindex
-//@   loop 3 invariant 0 - 1 <= rangeindex && rangeindex <= len(matches) - 1 && journal != nil && visited[path] && (forall p string :: old(visited[p]) ==> visited[p]) && result != nil && result.Files != nil && fresh(result) && fresh(result.Files)
-//@   loop 3 decreases len(matches) - rangeindex
+
+//@ func (*Loader).loadParsed
+//@   props C09 C10 C11
+//@   requires CacheOK(l) && visited != nil && !has(visited, path) && PfOK(file)
+//@   ensures CacheOK(l)
+//@   ensures len(result1) == 0 || fresh(result1)
+//@   ensures [C10:stack] forall p string :: visited[p] == old(visited[p])
+//@   ensures [grow_only] forall p string :: old(has(visited, p)) ==> has(visited, p)
+//@   ensures [C10:entered] result0 != nil ==> has(visited, path)
+//@   ensures [C10:too_deep] result0 == nil ==> len(result1) == 1 && (forall p string :: has(visited, p) == old(has(visited, p)))
+//@   ensures [C09:primary_path] result0 != nil ==> result0.PrimaryPath == path && result0.Primary == file.journal && result0.Files != nil && fresh(result0) && fresh(result0.Files)
+//@   ensures [C10:once] result0 != nil ==> (forall p string :: has(result0.Files, p) ==> has(visited, p) && !old(has(visited, p)) && p != path)
+//@   ensures [C11:contents_current] result0 != nil ==> (forall p string :: {has(result0.Files, p)} has(result0.Files, p) ==> result0.Files[p] != nil && parsedFrom(result0.Files[p]) == fsread(p))
+//@   ensures [C11:own_errors_reported] result0 != nil ==> len(result1) >= len(file.parseErrs) && (forall i int :: {result1[i]} 0 <= i && i < len(file.parseErrs) ==> result1[i].Kind == ErrorParseError && result1[i].Path == path && result1[i].Message == file.parseErrs[i].Message)
+//@   modifies visited[*], l.cache[*]
+//@   loop 1 invariant depth >= 0 && (forall p string :: visited[p] == old(visited[p])) && (forall p string :: has(visited, p) == old(has(visited, p)))
+//@   loop 1 modifies nothing
+//@   loop 1 decreases *
+//@   loop 2 invariant 0 - 1 <= rangeindex && rangeindex <= len(file.parseErrs) - 1 && (forall p string :: visited[p] == old(visited[p])) && (forall p string :: has(visited, p) == old(has(visited, p)))
+//@   loop 2 invariant len(errors) == 0 || fresh(errors)
+//@   loop 2 invariant len(errors) == rangeindex + 1 && (forall i int :: {errors[i]} 0 <= i && i <= rangeindex ==> errors[i].Kind == ErrorParseError && errors[i].Path == path && errors[i].Message == file.parseErrs[i].Message)
+//@   loop 2 decreases len(file.parseErrs) - rangeindex
+//@   loop 3 invariant 0 - 1 <= rangeindex && rangeindex <= len(journal.Includes) - 1 && journal != nil
+//@   loop 3 invariant visited[path] && has(visited, path) && CacheOK(l)
+//@   loop 3 invariant result != nil && result.Files != nil && fresh(result) && fresh(result.Files)
+//@   loop 3 invariant forall p string :: p != path ==> visited[p] == old(visited[p])
+//@   loop 3 invariant forall p string :: old(has(visited, p)) ==> has(visited, p)
+//@   loop 3 invariant forall p string :: has(result.Files, p) ==> has(visited, p) && !old(has(visited, p)) && p != path
+//@   loop 3 invariant len(errors) == 0 || fresh(errors)
+//@   loop 3 invariant forall p string :: {has(result.Files, p)} has(result.Files, p) ==> result.Files[p] != nil && parsedFrom(result.Files[p]) == fsread(p)
+//@   loop 3 invariant len(errors) >= len(file.parseErrs)
+//@   loop 3 invariant forall i int :: {errors[i]} 0 <= i && i < len(file.parseErrs) ==> errors[i].Kind == ErrorParseError && errors[i].Path == path
+//@   loop 3 invariant forall i int :: {errors[i]} 0 <= i && i < len(file.parseErrs) ==> errors[i].Message == file.parseErrs[i].Message
+//@   loop 3 decreases len(journal.Includes) - rangeindex
+//@   loop 4 invariant 0 - 1 <= rangeindex && rangeindex <= len(matches) - 1 && journal != nil
+//@   loop 4 invariant visited[path] && has(visited, path) && CacheOK(l)
+//@   loop 4 invariant result != nil && result.Files != nil && fresh(result) && fresh(result.Files)
+//@   loop 4 invariant forall p string :: p != path ==> visited[p] == old(visited[p])
+//@   loop 4 invariant forall p string :: old(has(visited, p)) ==> has(visited, p)
+//@   loop 4 invariant forall p string :: has(result.Files, p) ==> has(visited, p) && !old(has(visited, p)) && p != path
+//@   loop 4 invariant len(errors) == 0 || fresh(errors)
+//@   loop 4 invariant forall p string :: {has(result.Files, p)} has(result.Files, p) ==> result.Files[p] != nil && parsedFrom(result.Files[p]) == fsread(p)
+//@   loop 4 invariant len(errors) >= len(file.parseErrs)
+//@   loop 4 invariant forall i int :: {errors[i]} 0 <= i && i < len(file.parseErrs) ==> errors[i].Kind == ErrorParseError && errors[i].Path == path
+//@   loop 4 invariant forall i int :: {errors[i]} 0 <= i && i < len(file.parseErrs) ==> errors[i].Message == file.parseErrs[i].Message
+//@   loop 4 decreases len(matches) - rangeindex
 
 //@ func (*Loader).loadSingleInclude
 //@   props C10 C11
-//@   requires l != nil && l.cache != nil && visited != nil && result != nil && result.Files != nil && visited != l.cache && result.Files != l.cache && result.Files != visited
-//@   ensures [cycle_no_effect] old(visited[includePath]) ==> (forall p string :: has(result.Files, p) <==> old(has(result.Files, p)))
+//@   requires CacheOK(l) && visited != nil && result != nil && result.Files != nil
+//@   requires [files_entered] forall p string :: has(result.Files, p) ==> has(visited, p)
+//@   ensures CacheOK(l)
+//@   ensures [cycle_no_effect] old(has(visited, includePath)) ==> (forall p string :: has(result.Files, p) <==> old(has(result.Files, p)))
+//@   ensures [C10:cycle_exact] old(has(visited, includePath)) ==> (len(result0) == ite(old(visited[includePath]), 1, 0))
+//@   ensures [C10:cycle_on_directive] old(visited[includePath]) ==> result0[0].Kind == ErrorCycleDetected && result0[0].Range == incRange && result0[0].Path == includePath
 //@   ensures [C10:stack] forall p string :: visited[p] == old(visited[p])
-//@   ensures [grow_only] forall p string :: old(visited[p]) ==> visited[p]
+//@   ensures [grow_only] forall p string :: old(has(visited, p)) ==> has(visited, p)
+//@   ensures [C10:once] forall p string :: has(result.Files, p) && !old(has(result.Files, p)) ==> has(visited, p) && !old(has(visited, p))
+//@   ensures [files_grow] forall p string :: old(has(result.Files, p)) ==> has(result.Files, p) && result.Files[p] == old(result.Files[p])
+//@   ensures [C11:contents_current] forall p string :: {has(result.Files, p)} has(result.Files, p) && !old(has(result.Files, p)) ==> result.Files[p] != nil && parsedFrom(result.Files[p]) == fsread(p)
+//@   ensures [C11:hit_resolves_nested] !old(has(visited, includePath)) ==> has(visited, includePath) || len(result0) > 0
+//@   ensures [C11:entered_registered] !old(has(visited, includePath)) && has(visited, includePath) ==> has(result.Files, includePath)
 //@   modifies visited[*], result.Files[*], result.FileOrder, l.cache[*]
+
+//@ func onDirective
+//@   props C10
+//@   ensures [C10:too_deep_on_directive] subResult == nil ==> (forall i int :: 0 <= i && i < len(result) ==> result[i].Range == incRange)
+//@   ensures len(result) == len(subErrors)
+//@   modifies elems(subErrors)
+//@   loop 1 invariant 0 - 1 <= rangeindex && rangeindex <= len(subErrors) - 1 && (forall i int :: 0 <= i && i <= rangeindex ==> subErrors[i].Range == incRange)
+//@   loop 1 decreases len(subErrors) - rangeindex
+
+//@ func (*Loader).InvalidateFile
+//@   props C11
+//@   requires [C11:changed_file] CacheOKExcept(l, path)
+//@   ensures [C11:coherent_again] CacheOK(l)
+//@   ensures [C11:dropped] !has(l.cache, path)
+//@   ensures [C11:others_kept] forall q string :: q != path ==> (has(l.cache, q) <==> old(has(l.cache, q)))
+//@   modifies l.cache[*]
+
+//@ func (*Loader).ClearCache
+//@   props C11
+//@   requires l != nil
+//@   ensures [C11:coherent_again] CacheOK(l)
+//@   ensures [C11:empty] forall q string :: !has(l.cache, q)
+//@   modifies l.cache
 
 // srcPath(r): the path of the file r.Primary was parsed from (a ghost attribute of a resolved journal: fixed when the
 // journal is created by the loader / the workspace, never stored in the struct).
